@@ -19,7 +19,7 @@ func constMerge() *progen.Program {
 	// replace: W pipeline returning a constant, mapped over GEN.arr
 	p.Pipelines = nil
 	w := &progen.Pipeline{Name: "W", Ins: []progen.Param{{T: progen.IntT, Name: "p"}},
-		Outs: []progen.Param{{T: progen.IntT, Name: "r"}, {T: progen.IntT, Name: "k"}},
+		Outs:  []progen.Param{{T: progen.IntT, Name: "r"}, {T: progen.IntT, Name: "k"}},
 		Calls: []*progen.Call{{Callee: "ADD", Binds: []progen.Bind{{"a", progen.Self("p")}, {"b", progen.Lit(progen.Int(1))}}}},
 		Ret:   []progen.Bind{{"r", progen.Ref("ADD", "sum")}, {"k", progen.Lit(progen.Int(3))}}}
 	top := &progen.Pipeline{Name: "TOP", Ins: []progen.Param{{T: progen.IntT, Name: "n"}},
